@@ -651,3 +651,296 @@ Proof.
   split; [eexists; split; [vm_compute; reflexivity|vm_compute; repeat split; reflexivity]|].
   eexists; split; [vm_compute; reflexivity|vm_compute; repeat split; reflexivity].
 Qed.
+
+(* ------------------------------------------------------------------ *)
+(* EndBlock, per context *)
+
+Lemma ub_expire_req cfg s r : ub s (expire_req cfg s r).
+Proof.
+  destruct (core_expire_req cfg s r) as [Ec|(q & rc & _ & _ & Es & Ec)].
+  - apply ub_core. exact Ec.
+  - eapply ub_trans; [|apply ub_core; exact Ec]. unfold expire_money. rewrite Es.
+    assert (Hsa : ub s (match slash cfg s r with Ok x => x | _ => s end)).
+    { destruct (slash cfg s r) eqn:E; try apply ub_refl. eapply ub_slash; eauto. }
+    destruct (refund_fee _ r (c_cons rc) (r_fee q)) eqn:Er; [|assumption].
+    eapply ub_trans; [exact Hsa|eapply ub_refund_fee; eauto].
+Qed.
+
+(* the expiry handler of a context lowers no ordinary account: slashes are burnt from the
+   Deposit module account, refunds credit the consumer *)
+Theorem C05_expire_one_no_debit cfg s c a : bal s (User a) <= bal (expire_one cfg s c) (User a).
+Proof.
+  revert a. change (ub s (expire_one cfg s c)). unfold expire_one.
+  set (rc := ctx_or_zero s c).
+  assert (Hp : ub s (fst (if c_bdone rc then (s, rc)
+             else complete_batch (fold_left (expire_req cfg) (active_rids s c (c_counter rc)) s) c rc))).
+  { destruct (c_bdone rc); [apply ub_refl|].
+    eapply ub_trans; [|apply ub_core, core_complete_batch].
+    apply fold_inv with (P := fun t => ub s t); [|apply ub_refl].
+    intros t r Ht. eapply ub_trans; [exact Ht|apply ub_expire_req]. }
+  destruct (if c_bdone rc then (s, rc) else _) as [s1 rc1]. cbn [fst] in Hp.
+  eapply ub_trans; [exact Hp|]. apply ub_core.
+  rewrite core_clean_batch.
+  destruct (c_state rc1); [| |reflexivity]; try reflexivity.
+  destruct (c_rep rc1 && _); reflexivity.
+Qed.
+
+(* the new-batch handler of a context either leaves the bank alone or makes exactly one
+   transfer, from the consumer of the context to the escrow account *)
+Lemma new_one_bank cfg s c :
+  core (new_one cfg s c) = core s
+  \/ (c_state (ctx_or_zero s c) = Running /\ c_super (ctx_or_zero s c) = false
+      /\ exists x amt, transfer (User (c_cons (ctx_or_zero s c))) Escrow amt s = Some x
+           /\ core (new_one cfg s c) = core x).
+Proof.
+  unfold new_one. set (rc := ctx_or_zero s c).
+  destruct (is_state rc Running && c_rep rc && (0 <? c_total rc) && (c_total rc <=? c_counter rc)).
+  { left. reflexivity. }
+  rewrite core_del_newq.
+  destruct (is_state rc Running) eqn:Hr; [|left; reflexivity].
+  apply is_state_true in Hr.
+  destruct ((0 <? len _) && _).
+  - destruct (c_super rc) eqn:Hs.
+    + left. now autorewrite with core.
+    + destruct (transfer (User (c_cons rc)) Escrow _ s) as [x|] eqn:Et.
+      * right. split; [exact Hr|]. split; [reflexivity|]. eexists x, _. split; [exact Et|].
+        now autorewrite with core.
+      * left. apply core_on_paused.
+  - left. apply core_skip_batch.
+Qed.
+
+(* ... so it lowers at most the consumer of a running, non-super context *)
+Theorem C05_new_one_debits cfg s c a :
+  bal (new_one cfg s c) (User a) < bal s (User a) ->
+  a = c_cons (ctx_or_zero s c) /\ c_state (ctx_or_zero s c) = Running
+  /\ c_super (ctx_or_zero s c) = false.
+Proof.
+  intros Hlt. destruct (new_one_bank cfg s c) as [Ec|(Hr & Hs & x & amt & Et & Ec)].
+  - rewrite (core_bal _ _ _ Ec) in Hlt. lia.
+  - rewrite (core_bal _ _ _ Ec) in Hlt.
+    destruct (transfer_user_bal _ _ _ _ _ a Et) as [H0 Hx].
+    destruct (Z.eqb_spec a (c_cons (ctx_or_zero s c))) as [->|_]; [auto|lia].
+Qed.
+
+(* ------------------------------------------------------------------ *)
+(* EndBlock: lifting a per-context relation over the two phases, with the invariant
+   available at every intermediate state *)
+
+Section PhaseLift.
+  Variable cfg : Params.
+  Hypothesis Hcfg : wf_cfg cfg.
+  Variable R : State -> State -> Prop.
+  Hypothesis R_refl : forall s, R s s.
+  Hypothesis R_trans : forall s1 s2 s3, R s1 s2 -> R s2 s3 -> R s1 s3.
+
+  Lemma expire_phase_lift :
+    (forall s c, Inv cfg s -> In (height s, c) (expq s) -> height s < HEIGHT_BOUND ->
+       R s (expire_one cfg s c)) ->
+    forall l s, Inv cfg s -> height s < HEIGHT_BOUND -> NoDup l ->
+      (forall c, In c l -> In (height s, c) (expq s)) -> R s (fold_left (expire_one cfg) l s).
+  Proof.
+    intros Hstep. induction l as [|a l IH]; intros s Hi Hb Hn Hl; cbn [fold_left]; [apply R_refl|].
+    inversion Hn as [|? ? Hna Hn']; subst.
+    assert (Hda : In (height s, a) (expq s)) by (apply Hl; now left).
+    pose proof (Inv_expire_one cfg s a Hcfg Hi Hda Hb) as Hi1.
+    pose proof (height_expire_one cfg s a Hcfg Hi Hda Hb) as Eh.
+    pose proof (expq_after_expire_one cfg s a Hcfg Hi Hda Hb) as Eq.
+    apply R_trans with (s2 := expire_one cfg s a); [apply Hstep; assumption|].
+    apply IH; try assumption.
+    - now rewrite Eh.
+    - intros c Hc. rewrite Eh. apply Eq. split; [apply Hl; now right|]. intros ->. contradiction.
+  Qed.
+
+  Lemma new_phase_lift :
+    (forall s c, Inv cfg s -> In (height s, c) (newq s) -> height s < HEIGHT_BOUND ->
+       R s (new_one cfg s c)) ->
+    forall l s, Inv cfg s -> height s < HEIGHT_BOUND -> NoDup l ->
+      (forall c, In c l -> In (height s, c) (newq s)) -> R s (fold_left (new_one cfg) l s).
+  Proof.
+    intros Hstep. induction l as [|a l IH]; intros s Hi Hb Hn Hl; cbn [fold_left]; [apply R_refl|].
+    inversion Hn as [|? ? Hna Hn']; subst.
+    assert (Hda : In (height s, a) (newq s)) by (apply Hl; now left).
+    pose proof (Inv_new_one cfg s a Hcfg Hi Hda Hb) as Hi1.
+    pose proof (height_new_one cfg s a Hcfg Hi Hda Hb) as Eh.
+    pose proof (newq_after_new_one cfg s a Hcfg Hi Hda Hb) as Eq.
+    apply R_trans with (s2 := new_one cfg s a); [apply Hstep; assumption|].
+    apply IH; try assumption.
+    - now rewrite Eh.
+    - intros c Hc. rewrite Eh. apply Eq. split; [apply Hl; now right|]. intros ->. contradiction.
+  Qed.
+End PhaseLift.
+
+(* what EndBlock keeps of a context record: consumer, super mode, repetition, timeout and
+   frequency; and it never sets a context Running *)
+Definition csim (rc rc' : Ctx) : Prop :=
+  c_cons rc' = c_cons rc /\ c_super rc' = c_super rc /\ c_rep rc' = c_rep rc
+  /\ c_timeout rc' = c_timeout rc /\ c_freq rc' = c_freq rc
+  /\ (c_state rc' = Running -> c_state rc = Running).
+
+Definition ctx_sim (s s' : State) : Prop :=
+  forall c rc', get c (ctxs s') = Some rc' -> exists rc, get c (ctxs s) = Some rc /\ csim rc rc'.
+
+Lemma csim_refl rc : csim rc rc.
+Proof. unfold csim. auto 10. Qed.
+
+Lemma ctx_sim_refl s : ctx_sim s s.
+Proof. intros c rc E. exists rc. split; [exact E|apply csim_refl]. Qed.
+
+Lemma ctx_sim_trans s1 s2 s3 : ctx_sim s1 s2 -> ctx_sim s2 s3 -> ctx_sim s1 s3.
+Proof.
+  intros H1 H2 c rc3 E3. destruct (H2 _ _ E3) as (rc2 & E2 & A1 & A2 & A3 & A4 & A5 & A6).
+  destruct (H1 _ _ E2) as (rc1 & E1 & B1 & B2 & B3 & B4 & B5 & B6).
+  exists rc1. split; [exact E1|]. unfold csim. repeat split; try congruence. auto.
+Qed.
+
+Lemma ctx_sim_expire_one cfg s c :
+  wf_cfg cfg -> Inv cfg s -> In (height s, c) (expq s) -> height s < HEIGHT_BOUND ->
+  ctx_sim s (expire_one cfg s c).
+Proof.
+  intros Hcfg HI Hdue Hb c' rc' E.
+  destruct (expire_one_spec cfg s c Hcfg HI Hdue Hb)
+    as (rc & rc1 & Erc & Ee & En & Hrc1 & Ht & Q1 & Q2 & Ee' & Hcase).
+  destruct (eqb_spec c' c) as [->|Hn].
+  - exists rc. split; [exact Erc|].
+    assert (rc' = rc1).
+    { destruct Hcase as [(Ex & _)|[(Ex & _)|(Ex & _)]]; congruence. }
+    subst rc'. destruct Hrc1 as [->|[_ ->]]; unfold csim; cbn; auto 10.
+  - rewrite (t_ctxs _ _ _ Ht) in E by assumption. exists rc'. split; [exact E|apply csim_refl].
+Qed.
+
+Lemma ctx_sim_new_one cfg s c :
+  Inv cfg s -> In (height s, c) (newq s) -> ctx_sim s (new_one cfg s c).
+Proof.
+  intros HI Hdue c' rc' E.
+  destruct (new_one_spec cfg s c HI Hdue) as (rc & Erc & En & Ee & Ht & Q1 & Q2 & En' & Hcase).
+  destruct (eqb_spec c' c) as [->|Hn].
+  - exists rc. split; [exact Erc|].
+    destruct Hcase as [(_ & Ex & _)|[(_ & _ & _ & n & Ex)|[(_ & _ & _ & Ex)|(_ & _ & Ex)]]];
+      rewrite Ex in E; try discriminate; injection E as <-;
+      unfold csim; cbn; repeat split; try reflexivity; try (intros; assumption); intros; discriminate.
+  - rewrite (t_ctxs _ _ _ Ht) in E by assumption. exists rc'. split; [exact E|apply csim_refl].
+Qed.
+
+(* the expiry phase *)
+Definition RE (s s' : State) : Prop :=
+  height s' = height s /\ ub s s' /\ ctx_sim s s'
+  /\ (forall h c, In (h, c) (expq s') -> In (h, c) (expq s))
+  /\ (forall h c, In (h, c) (newq s') ->
+        In (h, c) (newq s)
+        \/ exists rc, In (height s, c) (expq s) /\ get c (ctxs s) = Some rc /\ c_rep rc = true
+             /\ h = height s - c_timeout rc + c_freq rc).
+
+Lemma RE_refl s : RE s s.
+Proof.
+  split; [reflexivity|]. split; [apply ub_refl|]. split; [apply ctx_sim_refl|]. split; auto.
+Qed.
+
+Lemma RE_trans s1 s2 s3 : RE s1 s2 -> RE s2 s3 -> RE s1 s3.
+Proof.
+  intros (A1 & A2 & A3 & A4 & A5) (B1 & B2 & B3 & B4 & B5).
+  split; [congruence|]. split; [eapply ub_trans; eauto|]. split; [eapply ctx_sim_trans; eauto|].
+  split; [auto|].
+  intros h c Hin. apply B5 in Hin. destruct Hin as [Hin|(rc2 & Hq & E2 & Hr & ->)]; [auto|].
+  right. destruct (A3 _ _ E2) as (rc1 & E1 & _ & _ & C3 & C4 & C5 & _).
+  exists rc1. rewrite A1 in *. split; [apply A4; exact Hq|]. split; [exact E1|].
+  split; [congruence|]. rewrite C4, C5. reflexivity.
+Qed.
+
+Lemma RE_expire_one cfg s c :
+  wf_cfg cfg -> Inv cfg s -> In (height s, c) (expq s) -> height s < HEIGHT_BOUND ->
+  RE s (expire_one cfg s c).
+Proof.
+  intros Hcfg HI Hdue Hb.
+  destruct (expire_one_spec cfg s c Hcfg HI Hdue Hb)
+    as (rc & rc1 & Erc & Ee & En & Hrc1 & Ht & Q1 & Q2 & Ee' & Hcase).
+  destruct (Inv_qpairs _ _ HI) as (Q1s & Q2s).
+  split; [apply (t_height _ _ _ Ht)|].
+  split; [intros a; apply C05_expire_one_no_debit|].
+  split; [now apply ctx_sim_expire_one|].
+  split.
+  - intros h c' Hin. apply (expq_after_expire_one cfg s c Hcfg HI Hdue Hb) in Hin. tauto.
+  - intros h c' Hin. destruct (eqb_spec c' c) as [->|Hn].
+    + right. apply Q2 in Hin.
+      destruct Hcase as [(Ex & En' & _)|[(Ex & En' & Hr & Hm)|(Ex & En' & Hp)]];
+        rewrite En' in Hin; try discriminate.
+      injection Hin as <-. exists rc. split; [exact Hdue|]. split; [exact Erc|].
+      split; [|reflexivity]. unfold more in Hm. apply andb_prop in Hm. tauto.
+    + left. now apply (In_q_touch c _ _ _ _ Q2s Q2 (t_newq_h _ _ _ Ht) h c' Hn).
+Qed.
+
+(* the new-batch phase *)
+Definition RN (s s' : State) : Prop :=
+  height s' = height s /\ ctx_sim s s'
+  /\ (forall h c, In (h, c) (newq s') -> In (h, c) (newq s))
+  /\ (forall a, bal s' (User a) < bal s (User a) ->
+        exists c rc, In (height s, c) (newq s) /\ get c (ctxs s) = Some rc /\ c_cons rc = a
+          /\ c_state rc = Running /\ c_super rc = false).
+
+Lemma RN_refl s : RN s s.
+Proof.
+  split; [reflexivity|]. split; [apply ctx_sim_refl|]. split; [auto|]. intros a Hlt. lia.
+Qed.
+
+Lemma RN_trans s1 s2 s3 : RN s1 s2 -> RN s2 s3 -> RN s1 s3.
+Proof.
+  intros (A1 & A2 & A3 & A4) (B1 & B2 & B3 & B4).
+  split; [congruence|]. split; [eapply ctx_sim_trans; eauto|]. split; [auto|].
+  intros a Hlt. destruct (Z_lt_le_dec (bal s2 (User a)) (bal s1 (User a))) as [Hl|Hl]; [auto|].
+  destruct (B4 a ltac:(lia)) as (c & rc2 & Hq & E2 & Hc & Hr & Hs).
+  destruct (A2 _ _ E2) as (rc1 & E1 & C1 & C2 & _ & _ & _ & C6).
+  exists c, rc1. rewrite A1 in Hq. split; [apply A3; exact Hq|]. split; [exact E1|].
+  split; [congruence|]. split; [auto|congruence].
+Qed.
+
+Lemma RN_new_one cfg s c :
+  wf_cfg cfg -> Inv cfg s -> In (height s, c) (newq s) -> height s < HEIGHT_BOUND ->
+  RN s (new_one cfg s c).
+Proof.
+  intros Hcfg HI Hdue Hb.
+  split; [now apply height_new_one|]. split; [now apply ctx_sim_new_one|].
+  split.
+  - intros h c' Hin. apply (newq_after_new_one cfg s c Hcfg HI Hdue Hb) in Hin. tauto.
+  - intros a Hlt. apply C05_new_one_debits in Hlt.
+    destruct (due_new _ _ _ HI Hdue) as (rc & Erc & _).
+    assert (Ez : ctx_or_zero s c = rc) by (unfold ctx_or_zero; now rewrite Erc).
+    rewrite Ez in Hlt. destruct Hlt as (-> & Hr & Hs). exists c, rc. auto.
+Qed.
+
+(* EndBlock lowers the balance of an ordinary account only if it is the consumer of a
+   context that is Running and not in super mode and whose new-batch entry is due in this
+   block: it was in the new-batch queue for this height, or its batch expires in this block
+   and it is a repeated context with frequency = timeout (then the next batch starts in the
+   same block) *)
+Theorem C05_endblock_debits cfg s dt a :
+  wf_cfg cfg -> Inv cfg s -> height s < HEIGHT_BOUND ->
+  bal (end_block cfg s dt) (User a) < bal s (User a) ->
+  exists c rc, get c (ctxs s) = Some rc /\ c_cons rc = a /\ c_state rc = Running
+    /\ c_super rc = false
+    /\ (In (height s, c) (newq s)
+        \/ (In (height s, c) (expq s) /\ c_rep rc = true /\ c_freq rc = c_timeout rc)).
+Proof.
+  intros Hcfg Hi Hb Hlt. unfold end_block, end_blocker in Hlt.
+  set (l1 := due (expq s) (height s)) in *.
+  assert (Hn1 : NoDup l1) by (apply NoDup_due; apply (inv_wf _ _ Hi)).
+  assert (Hl1 : forall c, In c l1 -> In (height s, c) (expq s)) by (intros c; apply In_due).
+  destruct (fold_expire_phase cfg l1 s Hcfg Hi Hb Hn1 Hl1) as (I1 & H1 & _).
+  pose proof (expire_phase_lift cfg Hcfg RE RE_refl RE_trans
+                (fun s c HI Hd Hb => RE_expire_one cfg s c Hcfg HI Hd Hb) l1 s Hi Hb Hn1 Hl1)
+    as (_ & E2 & E3 & _ & E5).
+  set (s1 := fold_left (expire_one cfg) l1 s) in *.
+  set (l2 := due (newq s1) (height s1)) in *.
+  assert (Hn2 : NoDup l2) by (apply NoDup_due; apply (inv_wf _ _ I1)).
+  assert (Hl2 : forall c, In c l2 -> In (height s1, c) (newq s1)) by (intros c; apply In_due).
+  assert (Hb1 : height s1 < HEIGHT_BOUND) by now rewrite H1.
+  pose proof (new_phase_lift cfg Hcfg RN RN_refl RN_trans
+                (fun s c HI Hd Hb => RN_new_one cfg s c Hcfg HI Hd Hb) l2 s1 I1 Hb1 Hn2 Hl2)
+    as (_ & _ & _ & N4).
+  set (s2 := fold_left (new_one cfg) l2 s1) in *.
+  change (bal s2 (User a) < bal s (User a)) in Hlt.
+  pose proof (E2 a) as Hle.
+  destruct (N4 a ltac:(lia)) as (c & rc1 & Hq & Erc1 & Hc & Hr & Hs).
+  destruct (E3 _ _ Erc1) as (rc & Erc & C1 & C2 & C3 & C4 & C5 & C6).
+  exists c, rc. split; [exact Erc|]. split; [congruence|]. split; [auto|]. split; [congruence|].
+  rewrite H1 in Hq. apply E5 in Hq. destruct Hq as [Hq|(rc0 & Hq & Erc0 & Hrep & Hh)]; [now left|].
+  right. assert (rc0 = rc) by congruence. subst rc0. split; [exact Hq|]. split; [exact Hrep|]. lia.
+Qed.
